@@ -67,7 +67,13 @@ inline Plan Gen(uint64_t seed)
          p.push_back(sendPfx + s);
       }
       else if (k < 80) {std::string s = "routedefault"; const int nk = 1 + (int) wl.below(2); const bool df = wl.oneIn(2); for (int i=0; i<nk; i++) {std::string key = Keys(wl, hosts, false); if (df) key += "^" + Filter(wl); s += " " + Esc(key);} p.push_back(sendPfx + s);}
-      else if (k < 82) p.push_back(sendPfx + (wl.oneIn(2) ? "rmroute" : "rmroutefilters"));
+      else if (k < 82)
+      {
+         const uint32_t q = wl.below(6);
+         if (q < 2) p.push_back(sendPfx + (q ? "rmroute" : "rmroutefilters"));
+         else if (q < 4) p.push_back(sendPfx + "routebare " + I(g.routeSeq++));   // a routed Message without any field (broadcast / default route)
+         else p.push_back(sendPfx + "jettison" + (wl.oneIn(2) ? std::string() : (" " + Esc(Keys(wl, hosts, false)))));   // a receiver cancels its queued GETDATA results: routed Messages queued for it are none of those
+      }
       else if (k < 86) {const uint32_t how = wl.below(10); if (how < 6) p.push_back("close " + I(c)); else if (how < 9) p.push_back("cut " + I(c) + " " + U(wl.below(3000))); else p.push_back("reset " + I(c)); g.up[c] = false;}
       else if (k < 90) {const int n = (int) wl.below((uint32_t) clients); if (!g.up[n]) GenConnect(p, g, cfg, fl, n, faultFree, 35);}
       else if ((k < 94)&&(!faultFree))
